@@ -235,3 +235,23 @@ def check_rebinding(d: Dispatch):
             table = t
         return tn, src, table
     raise ModelError(f'unrecognised rebinding idiom: {norm(st)[:100]}')
+
+
+def resolve_locs(d: Dispatch):
+    """After the c_locs rebinding: which local name holds the memory location of op column k.
+    Sets d.loc_out (column 1) and d.loc_ins (columns 2..5). Returns True iff every column is mapped
+    exactly once through a table called c_locs."""
+    tn, src, table = check_rebinding(d)
+    cols = {name: i for i, name in enumerate([d.opvar, d.outvar] + d.invars)}
+    m = {}
+    ok = len(tn) == len(src) == 5 and table is not None and table.split('.')[-1] == 'c_locs'
+    for t, s in zip(tn, src):
+        if s not in cols or cols[s] in m:
+            ok = False
+            continue
+        m[cols[s]] = t
+    ok = ok and sorted(m) == [1, 2, 3, 4, 5] and len(set(m.values())) == 5
+    d.loc_out = m.get(1, d.outvar)
+    d.loc_ins = [m.get(k, d.invars[k - 2]) for k in (2, 3, 4, 5)]
+    d.loc_table = table
+    return ok
